@@ -110,6 +110,92 @@ pub struct SavedVmState {
     pub new_target: JsValue,
     /// Trampoline call stack (for nested function calls)
     pub trampoline_stack: Vec<SavedTrampolineFrame>,
+    /// `this` of the suspended frame (None: the resumer supplies it, as generators do)
+    pub saved_this: Option<JsValue>,
+    /// Block scopes the suspended frame had entered (restored so that leaving them after the
+    /// resumption pops them again)
+    pub saved_env_stack: Vec<Gc<JsObject>>,
+    /// Exception being handled by a catch block of the suspended frame
+    pub exception_value: Option<JsValue>,
+    /// Completion (return / throw / break / continue) waiting for a finally block of the
+    /// suspended frame to finish
+    pub pending_completion: Option<SavedCompletion>,
+    /// Constructor the suspended frame runs as (for super lookups)
+    pub current_constructor: Option<Gc<JsObject>>,
+}
+
+/// Clone-able form of `PendingCompletion` for saved state (values are kept alive by the
+/// saved state's guard)
+#[derive(Clone)]
+pub enum SavedCompletion {
+    Return(JsValue),
+    Throw(JsValue),
+    Break {
+        target: usize,
+        try_depth: u8,
+        scope_depth: u16,
+    },
+    Continue {
+        target: usize,
+        try_depth: u8,
+        scope_depth: u16,
+    },
+}
+
+impl SavedCompletion {
+    fn save(pending: &Option<PendingCompletion>, guard: &Guard<JsObject>) -> Option<Self> {
+        let keep = |g: &Guarded| {
+            g.value.guard_by(guard);
+            g.value.clone()
+        };
+        pending.as_ref().map(|p| match p {
+            PendingCompletion::Return(g) => SavedCompletion::Return(keep(g)),
+            PendingCompletion::Throw(g) => SavedCompletion::Throw(keep(g)),
+            PendingCompletion::Break {
+                target,
+                try_depth,
+                scope_depth,
+            } => SavedCompletion::Break {
+                target: *target,
+                try_depth: *try_depth,
+                scope_depth: *scope_depth,
+            },
+            PendingCompletion::Continue {
+                target,
+                try_depth,
+                scope_depth,
+            } => SavedCompletion::Continue {
+                target: *target,
+                try_depth: *try_depth,
+                scope_depth: *scope_depth,
+            },
+        })
+    }
+
+    fn restore(self, heap: &crate::gc::Heap<JsObject>) -> PendingCompletion {
+        match self {
+            SavedCompletion::Return(v) => PendingCompletion::Return(Guarded::from_value(v, heap)),
+            SavedCompletion::Throw(v) => PendingCompletion::Throw(Guarded::from_value(v, heap)),
+            SavedCompletion::Break {
+                target,
+                try_depth,
+                scope_depth,
+            } => PendingCompletion::Break {
+                target,
+                try_depth,
+                scope_depth,
+            },
+            SavedCompletion::Continue {
+                target,
+                try_depth,
+                scope_depth,
+            } => PendingCompletion::Continue {
+                target,
+                try_depth,
+                scope_depth,
+            },
+        }
+    }
 }
 
 /// A call frame in the VM
@@ -198,6 +284,10 @@ pub struct SavedTrampolineFrame {
     pub construct_new_obj: Option<Gc<JsObject>>,
     /// For async function calls: wrap result in a Promise when returning
     pub is_async: bool,
+    /// Exception being handled by a catch block of this frame
+    pub exception_value: Option<JsValue>,
+    /// Completion waiting for a finally block of this frame
+    pub pending_completion: Option<SavedCompletion>,
 }
 
 /// A saved VM frame for the trampoline call stack
@@ -1866,9 +1956,19 @@ impl BytecodeVM {
                     saved_interp_env: frame.saved_interp_env.cheap_clone(),
                     construct_new_obj: frame.construct_new_obj.clone(),
                     is_async: frame.is_async,
+                    exception_value: frame.exception_value.as_ref().map(|g| {
+                        g.value.guard_by(&guard);
+                        g.value.clone()
+                    }),
+                    pending_completion: SavedCompletion::save(&frame.pending_completion, &guard),
                 }
             })
             .collect();
+
+        if let Some(ref ctor) = self.current_constructor {
+            guard.guard(ctor.cheap_clone());
+        }
+        let pending_completion = SavedCompletion::save(&self.pending_completion, &guard);
 
         SavedVmState {
             frames: self.call_stack.clone(),
@@ -1880,6 +1980,11 @@ impl BytecodeVM {
             arguments: self.arguments.clone(),
             new_target: self.new_target.clone(),
             trampoline_stack: saved_trampoline_stack,
+            saved_this: Some(self.this_value.clone()),
+            saved_env_stack: self.saved_env_stack.clone(),
+            exception_value: self.exception_value.as_ref().map(|g| g.value.clone()),
+            pending_completion,
+            current_constructor: self.current_constructor.clone(),
         }
     }
 
@@ -1891,9 +1996,19 @@ impl BytecodeVM {
         guard: Guard<JsObject>,
         heap: &crate::gc::Heap<JsObject>,
     ) -> Self {
+        // A frame suspended by await/order resumes with the `this` it was running with; the
+        // resumer's value is only used when the state does not carry one (generators)
+        let this_value = state.saved_this.clone().unwrap_or(this_value);
+
         // Guard this_value if it's an object
         if let JsValue::Object(obj) = &this_value {
             guard.guard(obj.cheap_clone());
+        }
+        for env in &state.saved_env_stack {
+            guard.guard(env.cheap_clone());
+        }
+        if let Some(ref ctor) = state.current_constructor {
+            guard.guard(ctor.cheap_clone());
         }
 
         // Guard all objects in the restored registers
@@ -1948,12 +2063,12 @@ impl BytecodeVM {
                     this_value: saved.this_value,
                     vm_call_stack: saved.vm_call_stack,
                     try_stack: saved.try_stack,
-                    exception_value: None, // Lost during save, but we handle exceptions differently on resume
+                    exception_value: saved.exception_value.map(|v| Guarded::from_value(v, heap)),
                     saved_env_stack: saved.saved_env_stack,
                     arguments: saved.arguments,
                     new_target: saved.new_target,
                     current_constructor: saved.current_constructor,
-                    pending_completion: None, // Lost during save
+                    pending_completion: saved.pending_completion.map(|p| p.restore(heap)),
                     return_register: saved.return_register,
                     saved_interp_env: saved.saved_interp_env,
                     register_guard: frame_guard,
@@ -1971,12 +2086,12 @@ impl BytecodeVM {
             call_stack: state.frames,
             try_stack: state.try_stack,
             this_value,
-            exception_value: None,
-            saved_env_stack: Vec::new(),
+            exception_value: state.exception_value.map(|v| Guarded::from_value(v, heap)),
+            saved_env_stack: state.saved_env_stack,
             arguments: state.arguments,
             new_target: state.new_target,
-            current_constructor: None,
-            pending_completion: None,
+            current_constructor: state.current_constructor,
+            pending_completion: state.pending_completion.map(|p| p.restore(heap)),
             trampoline_stack,
             register_pool: Vec::new(),
             arguments_pool: Vec::new(),
